@@ -173,6 +173,20 @@ where
             ));
         }
 
+        // The extended domain (large enough for the quotient polynomial) must
+        // also fit in the 2-adic subgroup of the field.
+        let quotient_poly_degree = (cs.degree() - 1) as u64;
+        let mut extended_k = k as u32;
+        while (1u64 << extended_k) < ((1u64 << k) * quotient_poly_degree) {
+            extended_k += 1;
+        }
+        if extended_k > F::S {
+            return Err(io::Error::new(
+                io::ErrorKind::InvalidData,
+                format!("circuit size value (k): {k} is too large for this constraint system"),
+            ));
+        }
+
         let domain = EvaluationDomain::new(cs.degree() as u32, k.into());
 
         let mut num_fixed_columns = [0u8; 4];
